@@ -139,4 +139,7 @@ def count_of(eng, st, seq, x):
     """number of occurrences of x in the list / tuple seq"""
     h = st.heap
     r = get_ref(eng.as_val(st, seq).t)
+    from contracts.base import TOUCH, _mentions_bound
+    if not _mentions_bound(r):
+        st.assume(TOUCH(h.lelems(r)))       # the row as a ground term (see base.lget)
     return sv_int(CNT(h.lelems(r), h.llen(r), eng.as_val(st, x).t))
